@@ -59,6 +59,7 @@ type pcfg struct {
 	fast     bool
 	reshare  string // "", "same", "permute", "replace-one", "grow", "shrink", "new-threshold"
 	fault    fault
+	fault2   fault // a second deviating party (party < 0: none); only used with n - t >= 2
 	permNode int // honest node whose input order is permuted (-1: none)
 	permPh   int // 0 deals, 1 responses, 2 justifications
 	perm     []int
@@ -73,7 +74,11 @@ func (p pcfg) base() string {
 	if p.reshare != "" {
 		r = " reshare=" + p.reshare
 	}
-	return fmt.Sprintf("pedersen n=%d t=%d %s%s; %s", p.n, p.t, m, r, p.fault)
+	f2 := ""
+	if p.fault2.kind != "" && p.fault2.party >= 0 {
+		f2 = " and " + p.fault2.String()
+	}
+	return fmt.Sprintf("pedersen n=%d t=%d %s%s; %s%s", p.n, p.t, m, r, p.fault, f2)
 }
 
 func (p pcfg) String() string {
@@ -307,7 +312,13 @@ func runPedersen(p pcfg, old *outcome) *outcome {
 	}
 	out.nodes = nodes
 	all := append(append([]*pnode{}, nodes...), leavers...)
+	var curFault fault // the behaviour of the node being processed
 	isFaulty := func(nd *pnode) bool {
+		if p.fault2.kind != "" && p.fault2.party >= 0 && nd == nodes[p.fault2.party%len(nodes)] {
+			curFault = p.fault2
+			return true
+		}
+		curFault = p.fault
 		return p.fault.party >= 0 && nd == nodes[p.fault.party%len(nodes)]
 	}
 	sign := func(nd *pnode, pk dkg.Packet) []byte {
@@ -317,6 +328,7 @@ func runPedersen(p pcfg, old *outcome) *outcome {
 	}
 	verified := func(rcv *pnode, pk dkg.Packet) bool { return dkg.VerifyPacketSignature(rcv.cfg, pk) == nil }
 	fk := p.fault.kind
+	_ = fk
 
 	// ---- phase 1: deals
 	var deals []*dkg.DealBundle
@@ -330,7 +342,8 @@ func runPedersen(p pcfg, old *outcome) *outcome {
 		}
 		nd.sent[0] = canonDeal(b)
 		if isFaulty(nd) {
-			victim := uint32(p.fault.target % n)
+			fk := curFault.kind
+			victim := uint32(curFault.target % n)
 			switch fk {
 			case "absent", "absent-deals":
 				continue
@@ -414,7 +427,8 @@ func runPedersen(p pcfg, old *outcome) *outcome {
 		}
 		nd.sent[1] = canonResp(rb)
 		if isFaulty(nd) {
-			accused := uint32(p.fault.target % max(len(oldNodesOr(newNodes, oldNodes)), 1))
+			fk := curFault.kind
+			accused := uint32(curFault.target % max(len(oldNodesOr(newNodes, oldNodes)), 1))
 			switch fk {
 			case "absent", "absent-responses":
 				continue
@@ -476,6 +490,7 @@ func runPedersen(p pcfg, old *outcome) *outcome {
 		}
 		nd.sent[2] = canonJust(jb)
 		if isFaulty(nd) {
+			fk := curFault.kind
 			switch fk {
 			case "absent", "bad-share+no-justification", "absent-justifications":
 				continue
@@ -541,6 +556,9 @@ func judgeAs(x *vf.Ctx, c *vf.Check, p pcfg, o *outcome, pk, id string) {
 	var honest []*pnode
 	for i, nd := range o.nodes {
 		if p.fault.party >= 0 && i == p.fault.party%len(o.nodes) {
+			continue
+		}
+		if p.fault2.kind != "" && p.fault2.party >= 0 && i == p.fault2.party%len(o.nodes) {
 			continue
 		}
 		honest = append(honest, nd)
@@ -654,7 +672,7 @@ func judgeAs(x *vf.Ctx, c *vf.Check, p pcfg, o *outcome, pk, id string) {
 		return false
 	}
 	f := p.fault
-	if f.party >= 0 {
+	if f.party >= 0 && p.fault2.kind == "" {
 		fi := o.nodes[f.party%len(o.nodes)].idx
 		switch f.kind {
 		case "bad-share+no-justification", "bad-share+bad-justification":
